@@ -406,8 +406,11 @@ func genConcFacts() {
 						}
 					}
 				case *ast.CallExpr:
-					if sel, ok := t.Fun.(*ast.SelectorExpr); ok && sel.Sel.Name == "MapKeys" {
-						mapKeys = append(mapKeys, fd.Name.Name)
+					if sel, ok := t.Fun.(*ast.SelectorExpr); ok && (sel.Sel.Name == "MapKeys" || sel.Sel.Name == "MapRange") {
+						// one site per function: MapKeys and MapRange both visit a Go map in its (random) order
+						if len(mapKeys) == 0 || mapKeys[len(mapKeys)-1] != fd.Name.Name {
+							mapKeys = append(mapKeys, fd.Name.Name)
+						}
 					}
 				case *ast.AssignStmt:
 					for _, l := range t.Lhs {
@@ -469,7 +472,7 @@ func genConcFacts() {
 		}
 		return "[" + strings.Join(o, ", ") + "]"
 	}
-	sb.WriteString("/-- functions of the evaluator files that call reflect's MapKeys (Go map order) -/\n")
+	sb.WriteString("/-- functions of the evaluator files that call reflect's MapKeys / MapRange (Go map order) -/\n")
 	fmt.Fprintf(&sb, "def mapKeysSites : List String := %s\n\n", q(mapKeys))
 	sb.WriteString("/-- assignments in the evaluator files whose target is reached through an AST-typed variable -/\n")
 	fmt.Fprintf(&sb, "def astWriteSites : List String := %s\n\n", q(astWrites))
